@@ -1,4 +1,313 @@
-import RaptorModel.Model.Mis
+import RaptorModel.Lemmas.MisLemmas
+import Mathlib.Data.Nat.Basic
+
+/-!
+# Property C15 — distance-two maximal independent set and aggregation
+
+Model: `RaptorModel/Model/Mis.lean` (`mis2Round`, `mis2`, `pass1`, `pass2`, `aggregate`).
+Helper lemmas and the hypotheses on the graph live in `RaptorModel/Lemmas/MisLemmas.lean`:
+
+* `SelfLoops S` : `∀ v < n, v ∈ S[v]`;
+* `Symm S`      : `w ∈ S[v] → v ∈ S[w]`;
+* `Closed S`    : every listed neighbour is `< n = S.length`;
+* `DistinctKeys S r` : vertices `< n` with equal keys are equal;
+* `N2 S v x`    : `∃ w ∈ S[v], x ∈ S[w]` (two stored edges `v → w → x`);
+* `Valid L`     : every label is `1`, `0` or `-1`.
+
+Results
+1. shape and monotonicity of one round (`mis2Round_length`, `mis2Round_keeps`, `mis2Round_valid`);
+2. progress (`min_key_tentative`, `max_key_confirmed`, `mis2Round_progress`) and totality
+   `mis2_total`: after `n` rounds every vertex is decided — no hypothesis on the graph or the keys;
+3. `mis2_independent`: no two roots within two edges (symmetric graph, self loops, distinct keys);
+4. `mis2_maximal`: every vertex is a root or within two edges of a root (self loops);
+5. aggregation: `pass1_root`, `pass1_nonroot`, `aggregate_sound`, `aggregate_total`,
+   `aggregate_pass2_adjacent`;
+6. partition independence is by construction: `mis2 S r` and `aggregate S absA r labels` are
+   functions of the global graph `S`, the keys `r` (and the weights `absA`) only — the model has no
+   process-count or partition argument, so any distributed run that implements these rounds
+   faithfully returns the same labels and aggregates on every partition.
+-/
+
 namespace Raptor.C15
-theorem placeholder : (1 : Nat) = 1 := rfl
+open Raptor.Mis
+
+variable {W : Type} [LinearOrder W] [Zero W]
+
+/-! ## 1. Shape and monotonicity -/
+
+/-- a round returns one label per vertex -/
+theorem mis2Round_length (S : Graph) (r : List W) (L : List Int) :
+    (mis2Round S r L).length = S.length :=
+  Raptor.Mis.mis2Round_length S r L
+
+/-- a decided vertex keeps its label -/
+theorem mis2Round_keeps {S : Graph} {r : List W} {L : List Int} (hlen : L.length = S.length)
+    {v : Nat} (h : decided L v = true) : lab (mis2Round S r L) v = lab L v :=
+  lab_round_keeps hlen h
+
+/-- a decided vertex stays decided -/
+theorem mis2Round_decided {S : Graph} {r : List W} {L : List Int} (hlen : L.length = S.length)
+    {v : Nat} (h : decided L v = true) : decided (mis2Round S r L) v = true :=
+  decided_round_keeps hlen h
+
+/-- labels stay in `{1, 0, -1}` -/
+theorem mis2Round_valid {S : Graph} {r : List W} {L : List Int} (h : Valid L) :
+    Valid (mis2Round S r L) :=
+  valid_round h
+
+/-- a vertex becomes a root only by being confirmed -/
+theorem mis2Round_root {S : Graph} {r : List W} {L : List Int} {v : Nat}
+    (h : lab (mis2Round S r L) v = 1) : lab L v = 1 ∨ confirmed S r L v = true :=
+  root_round h
+
+theorem mis2_length (S : Graph) (r : List W) : (mis2 S r).length = S.length :=
+  iterN_inv (mis2Round S r) (fun L => L.length = S.length)
+    (fun L _ => Raptor.Mis.mis2Round_length S r L) _ _ (by simp)
+
+theorem mis2_valid (S : Graph) (r : List W) : Valid (mis2 S r) :=
+  iterN_inv (mis2Round S r) Valid (fun _ h => valid_round h) _ _ (by
+    intro v
+    rw [lab_replicate]
+    split
+    · exact Or.inr (Or.inr rfl)
+    · exact Or.inr (Or.inl rfl))
+
+/-! ## 2. Progress and totality -/
+
+/-- an undecided vertex whose key is minimal among the undecided vertices is tentative -/
+theorem min_key_is_tentative {S : Graph} {r : List W} {L : List Int} {u : Nat}
+    (hu : decided L u = false) (hmin : ∀ w, decided L w = false → key r u ≤ key r w) :
+    tentative S r L u = true := by
+  refine tentative_iff.mpr ⟨hu, fun w _ hlt => ?_⟩
+  cases hd : decided L w
+  · exact absurd hlt (not_lt.mpr (hmin w hd))
+  · rfl
+
+/-- a tentative vertex whose key is maximal among the tentative vertices is confirmed -/
+theorem max_key_is_confirmed {S : Graph} {r : List W} {L : List Int} {t : Nat}
+    (ht : tentative S r L t = true) (hmax : ∀ u, tentative S r L u = true → key r u ≤ key r t) :
+    confirmed S r L t = true :=
+  confirmed_iff.mpr ⟨ht, fun _ _ u _ hu => not_lt.mpr (hmax u hu)⟩
+
+/-- while some vertex is undecided, some (minimum-key) undecided vertex is tentative -/
+theorem min_key_tentative {S : Graph} {r : List W} {L : List Int} (hlen : L.length = S.length)
+    (h : ∃ v, decided L v = false) : ∃ v, tentative S r L v = true :=
+  exists_tentative hlen h
+
+/-- while some vertex is tentative, some (maximum-key) tentative vertex is confirmed -/
+theorem max_key_confirmed {S : Graph} {r : List W} {L : List Int} (hlen : L.length = S.length)
+    (h : ∃ v, tentative S r L v = true) : ∃ v, confirmed S r L v = true :=
+  exists_confirmed hlen h
+
+/-- **progress**: if some vertex is undecided, at least one undecided vertex becomes a root in the
+    round (no closedness and no distinctness of the keys needed) -/
+theorem mis2Round_progress {S : Graph} {r : List W} {L : List Int} (hlen : L.length = S.length)
+    (h : ∃ v, decided L v = false) :
+    ∃ v, decided L v = false ∧ lab (mis2Round S r L) v = 1 := by
+  obtain ⟨c, hc⟩ := exists_confirmed (S := S) (r := r) hlen (exists_tentative hlen h)
+  exact ⟨c, confirmed_undecided hc, lab_round_confirmed hlen hc⟩
+
+/-- the number of undecided vertices strictly decreases while it is positive -/
+theorem mis2Round_decreases {S : Graph} {r : List W} {L : List Int} (hlen : L.length = S.length)
+    (h : 0 < undecCount L) : undecCount (mis2Round S r L) < undecCount L :=
+  undecCount_round_lt hlen h
+
+/-- **totality**: after `n` rounds every vertex is decided -/
+theorem mis2_total (S : Graph) (r : List W) (v : Nat) : decided (mis2 S r) v = true := by
+  apply undecCount_eq_zero
+  have h1 := undecCount_iterN (S := S) (r := r) S.length (List.replicate S.length (-1)) (by simp)
+  have h2 := undecCount_replicate S.length
+  unfold mis2
+  omega
+
+/-- every label of the result is `1` or `0` -/
+theorem mis2_labels (S : Graph) (r : List W) (v : Nat) :
+    lab (mis2 S r) v = 1 ∨ lab (mis2 S r) v = 0 :=
+  decided_iff.mp (mis2_total S r v)
+
+/-! ## 3. Independence -/
+
+/-- one round preserves the independence invariant (roots pairwise more than two edges apart; no
+    undecided vertex within two edges of a root) -/
+theorem mis2Round_independent {S : Graph} {r : List W} {L : List Int} (hs : Symm S)
+    (hk : DistinctKeys S r) (h : InvI S L) : InvI S (mis2Round S r L) :=
+  InvI_round hs hk h
+
+/-- two distinct roots of the result are never joined by two stored edges -/
+theorem mis2_independent_N2 {S : Graph} {r : List W} (hs : Symm S) (hk : DistinctKeys S r)
+    {a b : Nat} (ha : lab (mis2 S r) a = 1) (hb : lab (mis2 S r) b = 1) (hn : N2 S a b) : a = b :=
+  (InvI_mis2 hs hk).indep a b ha hb hn
+
+/-- **independence**: no two roots of `mis2` share an edge or a neighbour -/
+theorem mis2_independent {S : Graph} {r : List W} (hl : SelfLoops S) (hs : Symm S)
+    (hk : DistinctKeys S r) : independent2 S (mis2 S r) = true := by
+  rw [independent2_iff]
+  intro a b ha hb hm
+  have han : a < S.length := mis2_length S r ▸ root_lt ha
+  exact mis2_independent_N2 hs hk ha hb (N2_of_mem_within2 hl han hm)
+
+/-! ## 4. Maximality -/
+
+/-- one round preserves the maximality invariant (every excluded vertex has a root within two
+    edges) -/
+theorem mis2Round_cover {S : Graph} {r : List W} {L : List Int} (hl : SelfLoops S)
+    (h : InvM S L) : InvM S (mis2Round S r L) :=
+  InvM_round hl h
+
+/-- **maximality**: every vertex is a root or within two edges of a root -/
+theorem mis2_maximal {S : Graph} {r : List W} (hl : SelfLoops S) : maximal2 S (mis2 S r) = true := by
+  rw [maximal2_iff]
+  intro v hv
+  rcases mis2_labels S r v with h | h
+  · exact Or.inl h
+  · obtain ⟨x, hx, hn⟩ := (InvM_mis2 (r := r) hl).cover v hv h
+    exact Or.inr ⟨x, mem_within2_of_N2 hn, hx⟩
+
+/-! ## 5. Aggregation -/
+
+/-- (a) every root founds its own aggregate -/
+theorem pass1_root {S : Graph} {L : List Int} {v : Nat} (hv : v < S.length) (hr : lab L v = 1) :
+    (pass1 S L).getD v none = some v := by
+  rw [pass1_getD hv, if_pos hr]
+
+/-- (b) a non-root with a root neighbour joins that root, and the root neighbour is unique -/
+theorem pass1_nonroot {S : Graph} {L : List Int} (hs : Symm S) (hI : independent2 S L = true)
+    {v w : Nat} (hv : v < S.length) (hnr : lab L v ≠ 1) (hw : w ∈ S.getD v []) (hr : lab L w = 1) :
+    (pass1 S L).getD v none = some w ∧ ∀ w' ∈ S.getD v [], lab L w' = 1 → w' = w := by
+  have huniq : ∀ w' ∈ S.getD v [], lab L w' = 1 → w' = w := fun w' hw' hr' =>
+    independent2_iff.mp hI w' w hr' hr (mem_within2_of_N2 ⟨v, hs v w' hw', hw⟩)
+  refine ⟨?_, huniq⟩
+  obtain ⟨a, ha⟩ := pass1_isSome hv hw hr
+  obtain ⟨har, hav⟩ := pass1_some hv ha
+  rcases hav with rfl | hav
+  · exact absurd har hnr
+  · rw [ha, huniq a hav har]
+
+/-- whatever `aggregate` returns for a vertex is a root within two edges of it -/
+theorem aggregate_sound [Add W] {S : Graph} {absA : Nat → Nat → W} {r : List W} {L : List Int}
+    (hl : SelfLoops S) (hc : Closed S) {v a : Nat} (hv : v < S.length)
+    (h : (aggregate S absA r L).getD v none = some a) : lab L a = 1 ∧ a ∈ within2 S v := by
+  unfold aggregate at h
+  cases h1 : (pass1 S L).getD v none with
+  | some b =>
+    rw [pass2_of_some hv h1] at h
+    cases h
+    obtain ⟨hr, ha⟩ := pass1_some hv h1
+    refine ⟨hr, ?_⟩
+    rcases ha with rfl | ha
+    · exact mem_within2.mpr (Or.inl (hl _ hv))
+    · exact mem_within2.mpr (Or.inl ha)
+  | none =>
+    rw [pass2_of_none hv h1] at h
+    cases hf : (S.getD v []).foldl (p2step absA r (pass1 S L) v) none with
+    | none => rw [hf] at h; cases h
+    | some p =>
+      obtain ⟨m, b⟩ := p
+      rw [hf] at h
+      cases h
+      rcases foldl_p2step_origin _ _ hf with h0 | ⟨u, hu, hua⟩
+      · cases h0
+      · obtain ⟨hr, ha⟩ := pass1_some (hc v u hu) hua
+        refine ⟨hr, ?_⟩
+        rcases ha with rfl | ha
+        · exact mem_within2.mpr (Or.inl hu)
+        · exact mem_within2_of_N2 ⟨u, hu, ha⟩
+
+/-- (d) the aggregate chosen in pass 2 is the pass-1 aggregate of an adjacent vertex -/
+theorem aggregate_pass2_adjacent [Add W] {S : Graph} {absA : Nat → Nat → W} {r : List W}
+    {L : List Int} {v a : Nat} (hv : v < S.length) (h1 : (pass1 S L).getD v none = none)
+    (h : (aggregate S absA r L).getD v none = some a) :
+    ∃ w ∈ S.getD v [], (pass1 S L).getD w none = some a := by
+  unfold aggregate at h
+  rw [pass2_of_none hv h1] at h
+  cases hf : (S.getD v []).foldl (p2step absA r (pass1 S L) v) none with
+  | none => rw [hf] at h; cases h
+  | some p =>
+    obtain ⟨m, b⟩ := p
+    rw [hf] at h
+    cases h
+    rcases foldl_p2step_origin _ _ hf with h0 | h0
+    · cases h0
+    · exact h0
+
+/-- (c) **every vertex is aggregated**, to a root within two edges: on a closed graph with self
+    loops whose labels are maximal, with positive scores `|a_vw| + r_w` -/
+theorem aggregate_total [Add W] {S : Graph} {absA : Nat → Nat → W} {r : List W} {L : List Int}
+    (hl : SelfLoops S) (hc : Closed S) (hM : maximal2 S L = true)
+    (hpos : ∀ v w, 0 < absA v w + key r w) {v : Nat} (hv : v < S.length) :
+    ∃ a, (aggregate S absA r L).getD v none = some a ∧ lab L a = 1 ∧ a ∈ within2 S v := by
+  suffices hex : ∃ a, (aggregate S absA r L).getD v none = some a by
+    obtain ⟨a, ha⟩ := hex
+    exact ⟨a, ha, aggregate_sound hl hc hv ha⟩
+  unfold aggregate
+  cases h1 : (pass1 S L).getD v none with
+  | some a => exact ⟨a, pass2_of_some hv h1⟩
+  | none =>
+    have hnr : lab L v ≠ 1 := fun hr => by rw [pass1_getD hv, if_pos hr] at h1; cases h1
+    rcases maximal2_iff.mp hM v hv with hr | ⟨x, hx, hxr⟩
+    · exact absurd hr hnr
+    · obtain ⟨w, hw, hxw⟩ := N2_of_mem_within2 hl hv hx
+      obtain ⟨b, hb⟩ := pass1_isSome (L := L) (hc v w hw) hxw hxr
+      have hsome := foldl_p2step_isSome_of_mem (v := v) hpos hb (S.getD v []) none hw
+      obtain ⟨⟨m, a⟩, hma⟩ := Option.isSome_iff_exists.mp hsome
+      exact ⟨a, by rw [pass2_of_none hv h1, hma]; rfl⟩
+
+/-- the whole pipeline: on a closed graph with self loops (positive scores), `mis2` followed by
+    `aggregate` maps every vertex to a root within two edges -/
+theorem mis2_aggregate_total [Add W] {S : Graph} {absA : Nat → Nat → W} {r : List W}
+    (hl : SelfLoops S) (hc : Closed S) (hpos : ∀ v w, 0 < absA v w + key r w)
+    {v : Nat} (hv : v < S.length) :
+    ∃ a, (aggregate S absA r (mis2 S r)).getD v none = some a ∧ lab (mis2 S r) a = 1 ∧
+      a ∈ within2 S v :=
+  aggregate_total hl hc (mis2_maximal hl) hpos hv
+
+/-! ## Examples: the path `0 – 1 – 2 – 3 – 4` with self loops -/
+
+/-- the path graph with self loops -/
+def path5 : Graph := [[0, 1], [0, 1, 2], [1, 2, 3], [2, 3, 4], [3, 4]]
+
+theorem path5_selfLoops : SelfLoops path5 := selfLoops_of_check (by decide)
+theorem path5_symm : Symm path5 := symm_of_check (by decide)
+theorem path5_closed : Closed path5 := closed_of_check (by decide)
+
+/-- distinct keys on a five-vertex graph, checked on the finitely many pairs -/
+theorem path5_distinct (r : List Nat)
+    (h : (List.range 5).all (fun v => (List.range 5).all fun w =>
+      v == w || key r v != key r w) = true) : DistinctKeys path5 r := by
+  intro v w hv hw hk
+  rw [List.all_eq_true] at h
+  have h1 := h v (List.mem_range.mpr hv)
+  rw [List.all_eq_true] at h1
+  have h2 := h1 w (List.mem_range.mpr hw)
+  rcases Bool.or_eq_true _ _ ▸ h2 with h3 | h3
+  · exact beq_iff_eq.mp h3
+  · rw [hk] at h3; simp at h3
+
+/-- the general theorems instantiated on the path (no evaluation of `mis2` involved) -/
+example : independent2 path5 (mis2 path5 [3, 1, 4, 2, 5]) = true :=
+  mis2_independent path5_selfLoops path5_symm (path5_distinct _ (by decide))
+example : maximal2 path5 (mis2 path5 [3, 1, 4, 2, 5]) = true := mis2_maximal path5_selfLoops
+
+/-- keys `3 1 4 2 5`: round 1 confirms vertex 3 (vertex 1 is tentative but loses against 3),
+    round 2 confirms vertex 0 -/
+example : mis2Round path5 [3, 1, 4, 2, 5] (List.replicate 5 (-1)) = [-1, 0, 0, 1, 0] := by decide
+example : mis2 path5 [3, 1, 4, 2, 5] = [1, 0, 0, 1, 0] := by decide
+example : independent2 path5 (mis2 path5 [3, 1, 4, 2, 5]) = true := by decide
+example : maximal2 path5 (mis2 path5 [3, 1, 4, 2, 5]) = true := by decide
+example : aggregate path5 (fun _ _ => 1) [3, 1, 4, 2, 5] (mis2 path5 [3, 1, 4, 2, 5]) =
+    [some 0, some 0, some 3, some 3, some 3] := by decide
+
+/-- keys `1 5 4 3 2`: both ends are confirmed in round 1; vertex 2 is two edges away from both
+    roots and joins in pass 2 the aggregate of its neighbour with the larger score (vertex 1) -/
+example : mis2 path5 [1, 5, 4, 3, 2] = [1, 0, 0, 0, 1] := by decide
+example : independent2 path5 (mis2 path5 [1, 5, 4, 3, 2]) = true := by decide
+example : maximal2 path5 (mis2 path5 [1, 5, 4, 3, 2]) = true := by decide
+example : pass1 path5 [1, 0, 0, 0, 1] = [some 0, some 0, none, some 4, some 4] := by decide
+example : aggregate path5 (fun _ _ => 1) [1, 5, 4, 3, 2] [1, 0, 0, 0, 1] =
+    [some 0, some 0, some 0, some 4, some 4] := by decide
+
+/-- independence fails for a non-maximal-distance labelling, as expected -/
+example : independent2 path5 [1, 0, 1, 0, 0] = false := by decide
+example : maximal2 path5 [1, 0, 0, 0, 0] = false := by decide
+
 end Raptor.C15
